@@ -287,4 +287,6 @@ def check(run):
     check_cacg(run, A)
     check_bingham(run, A)
     check_weights_and_gaussian(run, A)
+    from ..opt import check_dropped_sanitisers
+    run.floor('floors / clamps of the distribution, initializer and utility modules', check_dropped_sanitisers(run, A, ('pb_bss.distribution.', 'pb_bss.initializer.', 'pb_bss.utils')), 20)
     sel.check_principal(run, A, 'pb_bss.utils::get_pca')
